@@ -2,7 +2,9 @@ package c16
 
 import (
 	"fmt"
+	"os"
 	"sort"
+	"strconv"
 	"strings"
 
 	"github.com/anishathalye/porcupine"
@@ -22,7 +24,18 @@ const (
 	linUnknown
 )
 
-const linBudget = 400000
+// linBudget bounds the model steps of one linearizability search (beyond it the verdict is
+// "unknown", never reported).  VERIF_C16_LINBUDGET overrides it (development aid).
+var linBudget = func() int {
+	if v, err := strconv.Atoi(os.Getenv("VERIF_C16_LINBUDGET")); err == nil && v > 0 {
+		return v
+	}
+	// porcupine keeps the visited (linearized set, state) pairs in buckets keyed by the set alone and
+	// scans a bucket linearly; with a nondeterministic model (sets of states) the cost of a search
+	// grows much faster than the number of model steps: 20 k steps 0.1 s, 50 k 1 s, 100 k 6 s,
+	// 400 k more than 100 s (thorough tier, seed 26: the wall-clock watchdog ended the check, exit 2)
+	return 60000
+}()
 
 type budget struct {
 	steps int
